@@ -31,13 +31,16 @@ type BP struct {
 
 // BB is one batch of a parent.
 type BB struct {
-	G   int   `json:"g"`   // group (host)
+	D   int   `json:"d,omitempty"` // on-group (dc); only in cases with on()
+	G   int   `json:"g"`           // group (host)
 	Gap int64 `json:"gap"` // seconds after the previous batch of this parent (0: same query as the previous batch, another group)
 	Pts []BP  `json:"pts"`
 }
 
 type BatchCase struct {
 	Union     bool    `json:"union"`
+	On        bool    `json:"on,omitempty"`       // join.on('dc'): one parent grouped by dc, the other by dc and host
+	Specific  []bool  `json:"specific,omitempty"` // with on(): parent p is grouped by dc and host (true) or by dc (false)
 	Parents   [][]BB  `json:"parents"`
 	GroupBy   bool    `json:"groupby"`
 	Tolerance int64   `json:"tolerance"` // seconds
@@ -52,7 +55,12 @@ const batchPeriod = 10
 
 func genBatch(t *rapid.T, r *kit.Rec) BatchCase {
 	var c BatchCase
-	c.Union = rapid.IntRange(0, 3).Draw(t, "union") == 0
+	switch rapid.IntRange(0, 7).Draw(t, "kind") {
+	case 0, 1:
+		c.Union = true
+	case 2, 3:
+		return genBatchOn(t, r)
+	}
 	np := rapid.IntRange(2, 3).Draw(t, "nparents")
 	c.GroupBy = rapid.Bool().Draw(t, "groupby")
 	groups := 1
@@ -113,11 +121,143 @@ func genBatch(t *rapid.T, r *kit.Rec) BatchCase {
 	return c
 }
 
+
+func genBatchPoints(t *rapid.T) []BP {
+	var pts []BP
+	n := rapid.SampledFrom([]int{0, 1, 1, 1, 2, 2, 2, 3, 3, 3, 4, 4}).Draw(t, "npts")
+	for i := 0; i < n; i++ {
+		pts = append(pts, BP{Off: int64(rapid.SampledFrom([]int{0, 0, 1, 1, 1, 2}).Draw(t, "off")), V: int64(rapid.IntRange(0, 99).Draw(t, "v"))})
+	}
+	return pts
+}
+
+// genBatchOn: the documented join.on() configuration over batch parents: one query grouped by the
+// on() dimension (one batch per dc and execution), one grouped by dc and host. The two input
+// classes of the known findings of unit JoinOn that concern this configuration are excluded by
+// construction in the same way (closing pair of batches per on-group; schedule repair).
+func genBatchOn(t *rapid.T, r *kit.Rec) BatchCase {
+	c := BatchCase{On: true, GroupBy: true, Specific: make([]bool, 2)}
+	c.Specific[rapid.IntRange(0, 1).Draw(t, "specific")] = true
+	nd := rapid.SampledFrom([]int{1, 2, 2}).Draw(t, "ongroups")
+	nh := rapid.IntRange(1, 3).Draw(t, "hosts")
+	every := int64(rapid.SampledFrom([]int{1, 1, 2, 3}).Draw(t, "every"))
+	for p := 0; p < 2; p++ {
+		rounds := 1 + rapid.IntRange(0, 3).Draw(t, "rounds")
+		if rapid.IntRange(0, 11).Draw(t, "silent") == 11 {
+			rounds = 0
+		}
+		var bs []BB
+		for q := 0; q < rounds; q++ {
+			gap := every * int64(rapid.SampledFrom([]int{1, 1, 1, 1, 1, 2, 3}).Draw(t, "gap"))
+			if rapid.IntRange(0, 7).Draw(t, "unaligned") == 0 {
+				gap++
+			}
+			first := true
+			add := func(b BB) {
+				if first {
+					b.Gap = gap
+					first = false
+				}
+				b.Pts = genBatchPoints(t)
+				bs = append(bs, b)
+			}
+			for d := 0; d < nd; d++ {
+				if !c.Specific[p] {
+					if nd > 1 && rapid.IntRange(0, 4).Draw(t, "nodata") == 0 {
+						continue
+					}
+					add(BB{D: d})
+					continue
+				}
+				for h := 0; h < nh; h++ {
+					if rapid.IntRange(0, 3).Draw(t, "nodata") == 0 {
+						continue
+					}
+					add(BB{D: d, G: h})
+				}
+			}
+		}
+		c.Parents = append(c.Parents, bs)
+	}
+	c.Tolerance = int64(rapid.SampledFrom([]int{0, 0, 1, 2, 3}).Draw(t, "tol"))
+	c.Fill = rapid.SampledFrom([]string{"", "", "null", "int", "float"}).Draw(t, "fill")
+	c.Delim = rapid.SampledFrom([]string{"", "", "", "_"}).Draw(t, "delim")
+	if rapid.Bool().Draw(t, "sname") {
+		c.Stream = "joined"
+	}
+	gp, sp := 0, 1
+	if c.Specific[0] {
+		gp, sp = 1, 0
+	}
+	if c.Fill != "" && excluding("tail") && tailTriggerEv(c.events(c.batches()), gp, sp) {
+		r.Exclude(exTail)
+		c.closeOnGroups(gp, sp)
+	}
+	lens := []int{len(c.Parents[0]), len(c.Parents[1])}
+	c.Schedules = genSchedules(t, lens)
+	if gp == 0 && excluding("lowmark") {
+		ev := c.events(c.batches())
+		for i, sch := range c.Schedules {
+			if lowMarkTriggerEv(ev, sch) >= 0 {
+				r.Exclude(exLowMark)
+				c.Schedules[i] = generalFirstInGroupEv(ev, sch)
+			}
+		}
+	}
+	return c
+}
+
+// events: on-group and rounded batch time of every batch (cases with on()).
+func (c BatchCase) events(bts [][]kit.Bt) [][]onEv {
+	ev := make([][]onEv, len(bts))
+	for p := range bts {
+		for _, b := range bts[p] {
+			ev[p] = append(ev[p], onEv{b.Tags["dc"], round(b.TMax, c.Tolerance*sec)})
+		}
+	}
+	return ev
+}
+
+// closeOnGroups appends, for every on-group of the specific parent, a general and a specific batch
+// with one batch time later than everything else (they join with each other).
+func (c *BatchCase) closeOnGroups(gp, sp int) {
+	last := make([]int64, 2)
+	max := int64(0)
+	for p := range c.Parents {
+		for _, b := range c.Parents[p] {
+			last[p] += b.Gap
+		}
+		if last[p] > max {
+			max = last[p]
+		}
+	}
+	T := max + c.Tolerance + 1
+	seen := map[int]bool{}
+	var ds []int
+	for _, b := range c.Parents[sp] {
+		if !seen[b.D] {
+			seen[b.D] = true
+			ds = append(ds, b.D)
+		}
+	}
+	sort.Ints(ds)
+	for _, d := range ds {
+		c.Parents[gp] = append(c.Parents[gp], BB{D: d, Gap: T - last[gp], Pts: []BP{{Off: 1, V: 1}}})
+		c.Parents[sp] = append(c.Parents[sp], BB{D: d, Gap: T - last[sp], Pts: []BP{{Off: 1, V: 2}}})
+		last[gp], last[sp] = T, T
+	}
+}
+
 func (c BatchCase) script() string {
 	var s strings.Builder
 	for p := range c.Parents {
 		fmt.Fprintf(&s, "var %s = batch|query('SELECT v, n FROM \"db\".\"rp\".%s').period(%ds).every(%ds)", pnames[p], pnames[p], batchPeriod, batchPeriod)
-		if c.GroupBy {
+		switch {
+		case c.On && c.Specific[p]:
+			s.WriteString(".groupBy('dc', 'host')")
+		case c.On:
+			s.WriteString(".groupBy('dc')")
+		case c.GroupBy:
 			s.WriteString(".groupBy('host')")
 		}
 		s.WriteString("\n")
@@ -136,6 +276,9 @@ func (c BatchCase) script() string {
 		}
 	} else {
 		fmt.Fprintf(&s, "pa|join(%s).as(%s)", strings.Join(others, ", "), strings.Join(as, ", "))
+		if c.On {
+			s.WriteString(".on('dc')")
+		}
 		if c.Tolerance != 0 {
 			fmt.Fprintf(&s, ".tolerance(%ds)", c.Tolerance)
 		}
@@ -167,7 +310,12 @@ func (c BatchCase) batches() [][]kit.Bt {
 		for _, b := range bs {
 			tmax += b.Gap * sec
 			var tags map[string]string
-			if c.GroupBy {
+			switch {
+			case c.On && c.Specific[p]:
+				tags = map[string]string{"dc": fmt.Sprintf("d%d", b.D), "host": fmt.Sprintf("h%d", b.G)}
+			case c.On:
+				tags = map[string]string{"dc": fmt.Sprintf("d%d", b.D)}
+			case c.GroupBy:
 				tags = map[string]string{"host": fmt.Sprintf("h%d", b.G)}
 			}
 			bt := kit.Bt{Name: pnames[p], Tags: tags, TMax: tmax, Points: []kit.Pt{}}
@@ -218,43 +366,32 @@ type batchRefInfo struct {
 	dupBatch   bool // a rounded batch time occurs twice in one parent and group
 	dupPoint   bool // a rounded point time occurs twice in one batch
 	incomplete bool // a set of batches without one of the parents
+	fanout     bool // with on(): a general batch joined with >= 2 specific batches
 	outputs    int
 }
 
-// expectedJoin: the multiset of non-empty joined batches, from the per-parent sequences alone.
-func (c BatchCase) expectedJoin(bts [][]kit.Bt) ([]string, batchRefInfo) {
-	var info batchRefInfo
-	np := len(bts)
+// joinSet joins one set of paired batches (nil: the parent has no batch in the set) into the
+// canonical form of the joined batch; ok is false when the joined batch has no points.
+func (c BatchCase) joinSet(set []*kit.Bt, tags map[string]string, t int64) (canon string, ok bool) {
+	np := len(set)
 	delim := c.Delim
 	if delim == "" {
 		delim = "."
 	}
 	tol := c.Tolerance * sec
-	type key struct {
-		g string
-		t int64
-	}
-	slots := map[key][][]*kit.Bt{}
-	for p := range bts {
-		for i := range bts[p] {
-			b := &bts[p][i]
-			k := key{b.Tags["host"], round(b.TMax, tol)}
-			if slots[k] == nil {
-				slots[k] = make([][]*kit.Bt, np)
+	first := -1
+	complete := true
+	for p := 0; p < np; p++ {
+		if set[p] != nil {
+			if first < 0 {
+				first = p
 			}
-			if len(slots[k][p]) > 0 {
-				info.dupBatch = true
-			}
-			slots[k][p] = append(slots[k][p], b)
-			seen := map[int64]bool{}
-			for _, pt := range b.Points {
-				rt := round(pt.Time, tol)
-				if seen[rt] {
-					info.dupPoint = true
-				}
-				seen[rt] = true
-			}
+		} else {
+			complete = false
 		}
+	}
+	if first < 0 || (!complete && c.Fill == "") {
+		return "", false // inner join: no joined point is possible
 	}
 	fill := func(f map[string]kit.FV, p int) {
 		for _, name := range []string{"v", "n"} {
@@ -268,83 +405,138 @@ func (c BatchCase) expectedJoin(bts [][]kit.Bt) ([]string, batchRefInfo) {
 			}
 		}
 	}
+	// pair the points of the present batches per rounded point time
+	pslots := map[int64][][]kit.Pt{}
+	for p := 0; p < np; p++ {
+		if set[p] == nil {
+			continue
+		}
+		for _, pt := range set[p].Points {
+			rt := round(pt.Time, tol)
+			if pslots[rt] == nil {
+				pslots[rt] = make([][]kit.Pt, np)
+			}
+			pslots[rt][p] = append(pslots[rt][p], pt)
+		}
+	}
+	o := kit.Bt{Name: c.Stream, TMax: t, Points: []kit.Pt{}}
+	if o.Name == "" {
+		o.Name = pnames[first]
+	}
+	if len(tags) > 0 {
+		o.Tags = tags
+	}
+	for rt, pper := range pslots {
+		pmax := 0
+		for _, l := range pper {
+			if len(l) > pmax {
+				pmax = len(l)
+			}
+		}
+		for j := 0; j < pmax; j++ {
+			f := map[string]kit.FV{}
+			all := true
+			for p := 0; p < np; p++ {
+				if j < len(pper[p]) {
+					for name, v := range pper[p][j].Fields {
+						f[pnames[p]+delim+name] = v
+					}
+				} else {
+					all = false
+					fill(f, p)
+				}
+			}
+			if !all && c.Fill == "" {
+				continue
+			}
+			o.Points = append(o.Points, kit.Pt{Tags: o.Tags, Fields: f, Time: rt})
+		}
+	}
+	if len(o.Points) == 0 {
+		return "", false // a batch without points carries no joined point
+	}
+	return canonBt(o, true), true
+}
+
+// expectedJoin: the multiset of non-empty joined batches, from the per-parent sequences alone.
+func (c BatchCase) expectedJoin(bts [][]kit.Bt) ([]string, batchRefInfo) {
+	var info batchRefInfo
+	np := len(bts)
+	tol := c.Tolerance * sec
+	type key struct {
+		g string
+		t int64
+	}
+	// k-th occurrences per parent, group and rounded batch time; with on() only of the specific parent
+	slots := map[key][][]*kit.Bt{}
+	firstGen := map[key]*kit.Bt{} // with on(): the general parent's (first) batch of an on-group and rounded batch time
+	used := map[*kit.Bt]int{}
+	for p := range bts {
+		for i := range bts[p] {
+			b := &bts[p][i]
+			seen := map[int64]bool{}
+			for _, pt := range b.Points {
+				rt := round(pt.Time, tol)
+				if seen[rt] {
+					info.dupPoint = true
+				}
+				seen[rt] = true
+			}
+			if c.On && !c.Specific[p] {
+				k := key{b.Tags["dc"], round(b.TMax, tol)}
+				if firstGen[k] == nil {
+					firstGen[k] = b
+				} else {
+					info.dupBatch = true
+				}
+				continue
+			}
+			k := key{tagKey(b.Tags), round(b.TMax, tol)}
+			if slots[k] == nil {
+				slots[k] = make([][]*kit.Bt, np)
+			}
+			if len(slots[k][p]) > 0 {
+				info.dupBatch = true
+			}
+			slots[k][p] = append(slots[k][p], b)
+		}
+	}
 	var out []string
 	for k, per := range slots {
 		max := 0
+		var any *kit.Bt
 		for _, l := range per {
 			if len(l) > max {
 				max = len(l)
 			}
+			if len(l) > 0 {
+				any = l[0]
+			}
 		}
 		for i := 0; i < max; i++ {
-			first := -1
-			complete := true
+			set := make([]*kit.Bt, np)
 			for p := 0; p < np; p++ {
-				if i < len(per[p]) {
-					if first < 0 {
-						first = p
+				switch {
+				case c.On && !c.Specific[p]:
+					if g := firstGen[key{any.Tags["dc"], k.t}]; g != nil {
+						set[p] = g
+						used[g]++
 					}
-				} else {
-					complete = false
+				case i < len(per[p]):
+					set[p] = per[p][i]
+				}
+				if set[p] == nil {
+					info.incomplete = true
 				}
 			}
-			if !complete {
-				info.incomplete = true
-				if c.Fill == "" {
-					continue // inner join: no joined point is possible
-				}
+			if j, ok := c.joinSet(set, any.Tags, k.t); ok {
+				out = append(out, j)
 			}
-			// pair the points of the present batches per rounded point time
-			pslots := map[int64][][]kit.Pt{}
-			for p := 0; p < np; p++ {
-				if i >= len(per[p]) {
-					continue
-				}
-				for _, pt := range per[p][i].Points {
-					rt := round(pt.Time, tol)
-					if pslots[rt] == nil {
-						pslots[rt] = make([][]kit.Pt, np)
-					}
-					pslots[rt][p] = append(pslots[rt][p], pt)
-				}
-			}
-			o := kit.Bt{Name: c.Stream, TMax: k.t, Points: []kit.Pt{}}
-			if o.Name == "" {
-				o.Name = pnames[first]
-			}
-			if c.GroupBy {
-				o.Tags = map[string]string{"host": k.g}
-			}
-			for rt, pper := range pslots {
-				pmax := 0
-				for _, l := range pper {
-					if len(l) > pmax {
-						pmax = len(l)
-					}
-				}
-				for j := 0; j < pmax; j++ {
-					f := map[string]kit.FV{}
-					all := true
-					for p := 0; p < np; p++ {
-						if j < len(pper[p]) {
-							for name, v := range pper[p][j].Fields {
-								f[pnames[p]+delim+name] = v
-							}
-						} else {
-							all = false
-							fill(f, p)
-						}
-					}
-					if !all && c.Fill == "" {
-						continue
-					}
-					o.Points = append(o.Points, kit.Pt{Tags: o.Tags, Fields: f, Time: rt})
-				}
-			}
-			if len(o.Points) == 0 {
-				continue // a batch without points carries no joined point
-			}
-			out = append(out, canonBt(o, true))
+		}
+	}
+	for _, n := range used {
+		if n >= 2 {
+			info.fanout = true
 		}
 	}
 	info.outputs = len(out)
@@ -375,6 +567,14 @@ func runBatch(c BatchCase, cc *kit.Case) {
 	cc.Label(fmt.Sprintf("%d-parents", len(c.Parents)))
 	if c.GroupBy {
 		cc.Label("groupby")
+	}
+	if c.On {
+		cc.Label("on()")
+		if c.Specific[0] {
+			cc.Label("on():specific|join(general)")
+		} else {
+			cc.Label("on():general|join(specific)")
+		}
 	}
 	empty := false
 	for p := range bts {
@@ -411,6 +611,9 @@ func runBatch(c BatchCase, cc *kit.Case) {
 		}
 		if info.incomplete {
 			cc.Label("incomplete-set")
+		}
+		if info.fanout {
+			cc.Label("on():fan-out")
 		}
 	}
 	if info.dupBatch {
@@ -505,7 +708,28 @@ func runBatch(c BatchCase, cc *kit.Case) {
 			} else if len(missing) == 0 {
 				dir = "spurious"
 			}
-			cc.Fail(fmt.Sprintf("joinbatch/multiset/%s/%s", jt, dir), "schedule %d %v: %d outputs, reference %d\nscript: %s\nonly observed: %v\nonly expected: %v", si, sch, len(got), len(want), script, only, missing)
+			sig := fmt.Sprintf("joinbatch/multiset/%s/%s", jt, dir)
+			if c.On {
+				// the input classes of the known findings of join.on() (see unit JoinOn)
+				class := "plain"
+				var cl []string
+				gp, sp := 0, 1
+				if c.Specific[0] {
+					gp, sp = 1, 0
+				}
+				ev := c.events(bts)
+				if c.Fill != "" && tailTriggerEv(ev, gp, sp) {
+					cl = append(cl, "unflushed-tail")
+				}
+				if gp == 0 && lowMarkTriggerEv(ev, sch) >= 0 {
+					cl = append(cl, "first-parent-late-in-group")
+				}
+				if len(cl) > 0 {
+					class = strings.Join(cl, "+")
+				}
+				sig = fmt.Sprintf("joinbatch/on/%s/multiset/%s/%s", class, jt, dir)
+			}
+			cc.Fail(sig, "schedule %d %v: %d outputs, reference %d\nscript: %s\nonly observed: %v\nonly expected: %v", si, sch, len(got), len(want), script, only, missing)
 			return
 		}
 	}
@@ -515,7 +739,14 @@ const batchRule = "rapid: 2-3 batch|query parents fed with time-ordered batch se
 	"oracle: schedule-independent pairing model (batches per group and rounded batch time, points per rounded point time), outputs as multisets (+ per-parent order and non-decreasing batch time for union); non-trivial = a schedule in which one parent is >=2 batches ahead of another at some moment and a rounded batch time occurs twice in one parent and group or a rounded point time twice in one batch; distinct by case hash"
 
 var batchAssumptions = []string{
-	"every parent delivers its batches in non-decreasing batch time (tmax) order, one batch per group and query execution, the points of a batch in time order within (tmax-period, tmax]; all parents end together (collectors closed)",
+	"JoinBatch: every parent delivers its batches in non-decreasing batch time (tmax) order, at most one batch per group and query execution, the points of a batch in time order within (tmax-period, tmax]; all parents end together (collectors closed)",
+	"JoinBatch: the batches are fed directly into the collectors of the task's query nodes (what replay does; kit.Env.BatchCollectorsInScriptOrder maps collectors to the script's query nodes); a batch's group is its tags",
+	"JoinBatch (from join.go; the JoinNode documentation speaks of points only): batches of different parents are paired like stream points, per group and batch time (tmax) rounded to the tolerance, the k-th occurrence in one parent with the k-th in the others; the joined batch carries the rounded batch time, the group's tags and streamName or the name of the first present parent",
+	"JoinBatch (from join.go, JoinIntoBatch): inside a set of paired batches the points are paired per point time rounded to the tolerance, k-th occurrence with k-th occurrence; a joined batch point carries the rounded time, the group's tags and the fields prefixed by the as() names; a point missing in a parent (or a whole batch missing in the set) drops the joined point in an inner join and is filled in an outer join (all parents have the same field names, so the names 'copied from another point' are unambiguous)",
+	"JoinBatch: a batch without points carries no joined point: kapacitor emits one for an incomplete set of an inner join and for paired batches without common times; whether it is emitted is not specified, output batches without points are ignored; the order of the points inside a joined batch is not compared (multiset)",
+	"JoinBatch (doc of UnionNode: 'passed onto children nodes without modification'): union emits every batch once, unchanged except for rename, in non-decreasing batch time, each parent's batches in order",
+	"rounding to the tolerance uses Go's time.Round, as the documentation's 'rounded to the nearest multiple of the tolerance' (trusted stdlib)",
+	"schedule control is best effort: the harness feeds one message at a time and waits (bounded) for the node's collected counter; a missed gate only reduces schedule coverage because the oracle does not depend on the schedule",
 }
 
 func TestJoinBatch(t *testing.T) {
